@@ -121,17 +121,29 @@ func TestVerifC12Free(t *testing.T) {
 			fb.SetMode("healthy")
 		}
 		_ = h.lb.SetStrategy(strategy)
-		time.Sleep(1200 * time.Millisecond)
+		lost := false
+		for _, fb := range fbs {
+			if fb.Lost {
+				lost = true // a port released for the refuse behaviour was taken by another process
+			}
+		}
+		// "serves again" is an eventually-property: probes still in flight when the faults stopped
+		// may eject a backend up to a probe timeout later, and breaker / window timeouts follow.
+		// Rounds of five requests are repeated for up to 30 s (all configured timeouts are <= 2 s).
 		ok := 0
 		e := &exch{addr: h.addr}
-		for i := 0; i < 5; i++ {
-			if resp := e.do(&wire.Request{Method: "GET", Target: "/after", Header: []wire.HeaderLine{{"Host", "x.test"}, {"X-Forwarded-For", fmt.Sprintf("10.5.0.%d", i)}}, NoBody: true}, 15*time.Second); resp.Err == "" && resp.Status == 200 {
-				ok++
+		for round := 0; round < 30 && ok < 3 && !lost; round++ {
+			time.Sleep(time.Second)
+			ok = 0
+			for i := 0; i < 5; i++ {
+				if resp := e.do(&wire.Request{Method: "GET", Target: "/after", Header: []wire.HeaderLine{{"Host", "x.test"}, {"X-Forwarded-For", fmt.Sprintf("10.5.%d.%d", round, i)}}, NoBody: true}, 15*time.Second); resp.Err == "" && resp.Status == 200 {
+					ok++
+				}
 			}
 		}
 		e.close()
-		if ok < 3 {
-			r.Violate("C12/free/not-serving-after-workload", fmt.Sprintf("%s: after the workload only %d of 5 requests to healthy backends succeeded", strategy, ok), 1, nil)
+		if ok < 3 && !lost {
+			r.Violate("C12/free/not-serving-after-workload", fmt.Sprintf("%s: for 30 s after the workload at most %d of 5 requests to healthy backends succeeded", strategy, ok), 1, nil)
 		}
 		h.stop()
 		for _, fb := range fbs {
